@@ -196,10 +196,14 @@ PROPS["C18"] = {
         {"dir": "state",
          "quick": ["VP_C18_StatePrune_low", "VP_C18_StatePrune_low_crash", "VP_C18_StatePrune_checkpoint"],
          "thorough": ["VP_C18_StatePrune_checkpoint_crash"]},
+        {"dir": "consensus",
+         "quick": ["VP_C05_Pipeline_n4_prune", "VP_C05_Pipeline_n4_prune_crash1"],
+         "thorough": []},
     ],
     "bounds": {
         "block store": "real BlockStore on the real MemDB behind a crash-injecting wrapper; chains of 3..4 (thorough 6) blocks with 2 transactions, single-part or multi-part (part size 64), really marshalled; SaveBlock of every block, then PruneBlocks to a symbolic retain height in [1, n]; one simulated crash before any single write / batch write; reopen (NewBlockStore on what is on disk) and audit of [base, height]: meta, block (hash equals id), every part, hash index, commit (seen commit at the tip)",
         "state store": "real state store (validator-set and consensus-parameter records as State.Save writes them) over 5 heights starting at 3 or at 99998 (across the validator-set checkpoint at 100000); the validator set and the parameters each change at one arbitrary height or never; up to two PruneStates with arbitrary retain heights, a crash before any write of the first (then audit and re-run); afterwards every height from the retain height up loads the set / parameters in force, pruned heights are gone",
+        "pruning inside the commit pipeline": "C05's pipeline entries with an application that asks for pruning from height 2 on (4 blocks, one crash at any write or application call): after every restart each height between the block store's base and height has its block, its validator set and its parameters",
         "batch boundary (thorough)": "1003 blocks, PruneBlocks(1002) with a crash at each of its writes (the 1000-height intermediate flush)",
     },
     "stubs": ["database = real tm-db MemDB; batch writes atomic (goleveldb contract), single writes atomic"],
@@ -322,7 +326,7 @@ PROPS["C05"] = {
          "quick": ["VP_C05_Quiesce_0", "VP_C05_Quiesce_1", "VP_C05_Quiesce_2", "VP_C05_Quiesce_1_concurrent", "VP_C05_Quiesce_v1_concurrent"],
          "thorough": ["VP_C05_Quiesce_2_concurrent"]},
         {"dir": "consensus",
-         "quick": ["VP_C05_Pipeline_n3", "VP_C05_Pipeline_n2_crash1", "VP_C05_Pipeline_n3_crash1"],
+         "quick": ["VP_C05_Pipeline_n3", "VP_C05_Pipeline_n2_crash1", "VP_C05_Pipeline_n3_crash1", "VP_C05_Pipeline_n4_prune", "VP_C05_Pipeline_n4_prune_crash1"],
          "thorough": ["VP_C05_Pipeline_n2_crash2", "VP_C05_Pipeline_n3_crash2"]},
     ],
     "bounds": {
@@ -343,12 +347,16 @@ _STEP_OUT = ["the induction is over one height; the next height starts from NewS
 PROPS["C02"] = {
     "files": ["consensus/state.go", "consensus/types/height_vote_set.go", "types/vote_set.go"],
     "groups": [
+        {"dir": "types",
+         "quick": ["VP_C01_VoteSet_n2_k2_pv", "VP_C01_VoteSet_n2_k3"],
+         "thorough": []},
         {"dir": "consensus",
          "quick": ["VP_C02_Base", "VP_C02_Step_R1_vote_lockfocus", "VP_C02_Step_R1_vote_polproposal", "VP_C02_Step_R2_vote_lockfocus_top", "VP_C02_Step_R1_timeout_lockfocus", "VP_C02_Step_R1_part_lockfocus", "VP_C02_Step_R1_txs"],
          "thorough": ["VP_C02_Step_R1_vote_locked", "VP_C02_Step_R1_timeout", "VP_C02_Step_R1_proposal", "VP_C02_Step_R1_part"]},
     ],
     "bounds": {
         "inductive step of the real consensus.State": "one arbitrary event (vote of any type/round/block; timeout; proposal; block part; txs-available) applied by the real handleMsg/handleTimeout/handleTxsAvailable to a state whose Round (0..R), Step (all 8), LockedRound, ValidRound, CommitRound, TriggeredTimeoutPrecommit, vote-set summary for rounds 0..R+1 and signing ghost are symbolic and constrained only by the invariant INV; INV is asserted again afterwards and on the NewState state (base), so every reachable state of a height is covered for rounds <= R; R=1 (thorough: also R=2 for votes); obligations L1-L5 asserted inside the signer at every signature",
+        "vote-set contract": "the quorum facts the step harness assumes about TwoThirdsMajority / HasTwoThirdsAny are those C01's vote-set entries decide on the real types.VoteSet with symbolic powers (two of them are run here too)",
         "slices": "quick entries cover the pre-state slice 'locked on A, valid block A, proposal block none/A, no proposal message, votes of the current height for nil/A/B' for votes (R=1, and R=2 with the node in round 2; plus the slice 'not locked, complete proposal block A with a proposal message of any POL round'), timeouts and parts, and every shape for txs-available; thorough entries cover every shape for timeouts, proposals, parts and the slice 'locked on A, valid A/B, proposal block none/A/B' for votes",
     },
     "stubs": _STEP_STUBS,
